@@ -383,9 +383,11 @@ def _run_chunk_guarded(binary, lines, timeout):
         p.communicate()
         if len(lines) == 1:
             return {lines[0].split("\t", 1)[0]: ["HANG"]}
+        # halve, with a time limit that shrinks with the chunk (a single case gets at least 6 s)
         h = len(lines) // 2
-        res = _run_chunk_guarded(binary, lines[:h], timeout)
-        res.update(_run_chunk_guarded(binary, lines[h:], timeout))
+        sub = max(6, timeout * 0.55)
+        res = _run_chunk_guarded(binary, lines[:h], sub)
+        res.update(_run_chunk_guarded(binary, lines[h:], sub))
         return res
 
 
